@@ -12,7 +12,7 @@ LEVEL = "exploration"
 RULE = (
     "case = (ping_interval I, ping_timeout T, payload, per-ping pong latencies: all < T | silent from ping n on | some "
     "late, server traffic times (data, pings, unsolicited pongs), schedule choices for ping thread vs reader + sampled "
-    "line preemptions), optionally as the second run on an object that already completed a healthy run). Grid: invalid pairs (T <= 0, I < 0, I <= T) and valid pairs T in {1,2,3,5} x I in {T+0.1, 1.5T, "
+    "line preemptions; every single preemption point of three fixed scenarios is swept), optionally as the second run on an object that already completed a healthy run). Grid: invalid pairs (T <= 0, I < 0, I <= T) and valid pairs T in {1,2,3,5} x I in {T+0.1, 1.5T, "
     "2T, 2T+0.1, 3T, 10T} (all enumerated with silent and responsive peers; Hypothesis varies the rest). Non-trivial: "
     "scenario with >= 3 pings and either a silent suffix or server traffic within +-T of a ping; invalid pairs. "
     "Distinct = the scenario."
@@ -66,7 +66,7 @@ def run_case(case):
     net = simkit.SimNet(sched)
     lat = case.get("pong", [])
     silent_from = case.get("silent_from")
-    horizon_t = 30 * I + 5
+    horizon_t = (8 if case.get("short") else 30) * I + 5
     timeline = []
     for t, kind in case.get("traffic", []):
         fr = {"data": {"op": rm.TEXT, "p": b"d"}, "ping": {"op": rm.PING, "p": b"sp"}, "pong": {"op": rm.PONG, "p": b"unsolicited"}}[kind]
@@ -229,14 +229,53 @@ def cases(draw):
     return c
 
 
+# fixed scenarios for single-preemption sweeps: traffic makes the reader run its liveness check at the very instant the ping thread wakes
+FIXED = [
+    {"interval": 2, "timeout": 1, "default_lat": 0.99, "pong": [0.0], "payload": "", "traffic": [[3.5, "data"], [7.9, "data"], [8.0, "pong"], [10.0, "data"], [12.0, "ping"]]},
+    {"interval": 3, "timeout": 2, "default_lat": 0.5, "secure": True, "traffic": [[6.0, "data"], [9.0, "data"], [12.0, "pong"], [15.0, "data"]]},
+    {"interval": 2.5, "timeout": 1, "silent_from": 2, "traffic": [[7.5, "data"], [8.4, "data"]]},
+]
+
+
+def _count_steps(case):
+    holder = {}
+    orig = simkit.Sched.__init__
+
+    def patched(self, *a, **kw):
+        orig(self, *a, **kw)
+        holder["s"] = self
+
+    simkit.Sched.__init__ = patched
+    try:
+        run_case(dict(case, preempt={"900000000": 1}))
+    finally:
+        simkit.Sched.__init__ = orig
+    return max(1, holder["s"].steps)
+
+
 def jobs(tier, seed):
     n, shards = (2000, 8) if tier == "quick" else (128000, 16)
     out = [{"name": "grid", "kind": "grid"}]
     out += [{"name": f"hyp-{i}", "kind": "hyp", "seed": seed * 1000 + i, "n": n // shards} for i in range(shards)]
+    of = 4 if tier == "quick" else 16
+    for fi in range(len(FIXED)):
+        for sh in range(of):
+            out.append({"name": f"preempt-{fi}-{sh}", "kind": "preempt", "fixed": fi, "shard": sh, "of": of, "stride": 3 if tier == "quick" else 1})
     return out
 
 
 def run_job(job, coll):
+    if job["kind"] == "preempt":
+        base = FIXED[job["fixed"]]
+        # the scenario is cut short (horizon 8 intervals) so that a sweep over all its line steps stays cheap
+        base = dict(base, short=True)
+        n_steps = _count_steps(base)
+        pts = list(range(1, n_steps + 1, job["stride"]))
+        for idx, p in enumerate(pts):
+            if idx % job["of"] == job["shard"]:
+                coll.check(dict(base, preempt={str(p): 1}), run_case)
+        coll.exhaustive[f"single preemption points of fixed scenario {job['fixed']} (stride {job['stride']})"] = job["stride"] == 1
+        return
     if job["kind"] == "grid":
         for c in grid_cases():
             coll.check(c, run_case)
